@@ -108,7 +108,8 @@ def ok_worlds(ws, cap=32):
     out = []
     for w in ws:
         dec = w.decisions if hasattr(w, 'decisions') else w['decisions']
-        if B.PathCond(dec).infeasible:
+        st0 = w.status if hasattr(w, 'status') else w['status']
+        if st0 == 'infeasible' or B.PathCond(dec).infeasible:
             continue
         st = w.status if hasattr(w, 'status') else w['status']
         if st != 'ok':
@@ -312,6 +313,8 @@ def judge_getter(ctx, f, fld, path):
         issues.append(('C01', 'undecided', base, '%s: analysis produced %d worlds' % (where, len(recs))))
         return out
     for rec in recs:
+        if rec['status'] == 'infeasible':
+            continue
         with with_world(rec['decisions']):
             _judge_getter_world(ctx, f, fld, fmt, base, where, R, rec, issues, out)
     return out
@@ -389,6 +392,8 @@ def judge_setter(ctx, f, fld, path):
                        '%s: value parameter has %d bits but field %s.%s has %d: value 2^%d cannot be stored'
                        % (where, P, fmt, fld['name'], fld['width'], P)))
     for rec in recs:
+        if rec['status'] == 'infeasible':
+            continue
         with with_world(rec['decisions']):
             _judge_setter_world(ctx, f, fld, fmt, base, where, P, rec, issues, out)
     return out
@@ -474,6 +479,8 @@ def judge_null(ctx, f, fld, path, kind):
     issues = []
     out = {'fn': fname, 'issues': issues, 'steps': sum(r['steps'] for r in recs)}
     for rec in recs:
+        if rec['status'] == 'infeasible':
+            continue
         if rec['status'] != 'ok':
             null_deref = any(n[0] == 'null-deref' for n in rec['notes'])
             if null_deref:
@@ -529,6 +536,8 @@ def judge_init(ctx, f, fname, extra_args=None, image=None, prop='C04', legacy=Fa
         return out
     img = image if image is not None else expected_image(f)
     for rec in recs:
+        if rec['status'] == 'infeasible':
+            continue
         with with_world(rec['decisions']):
             _judge_init_world(ctx, f, fmt, base, where, prop, hl, img, rec, issues, out)
     return out
@@ -590,6 +599,8 @@ def judge_init_null(ctx, f, fname, extra_args=None, legacy=False):
     recs = run_call(ctx, fname, args, f['header_len'])
     out['steps'] = sum(r['steps'] for r in recs)
     for rec in recs:
+        if rec['status'] == 'infeasible':
+            continue
         if rec['status'] != 'ok':
             nd = [n for n in rec['notes'] if n[0] == 'null-deref']
             if nd:
